@@ -51,7 +51,7 @@ var _ RawRegister32 = ParseTXTHeapBase(0)
 // ReadTXTHeapBase reads a TXTMLEJoin register from TXT config
 func ReadTXTHeapBase(data TXTConfigSpace) (TXTHeapBase, error) {
 	var u32 uint32
-	buf := bytes.NewReader(data[TXTHeapBaseRegisterOffset:])
+	buf := bytes.NewReader(data.from(TXTHeapBaseRegisterOffset))
 	err := binary.Read(buf, binary.LittleEndian, &u32)
 	if err != nil {
 		return 0, err
